@@ -227,3 +227,95 @@ Example c_leb_examples :
   c_uleb_encode (2 ^ 56) 16 = None /\ c_dec_leb128 [128; 128; 1; 9] = (16384, 3, [9]) /\
   c_dec_leb128 [255; 255; 255; 255; 255; 255; 255; 255; 1] = (2 ^ 56 - 1, 8, [1]).
 Proof. vm_compute. repeat split; reflexivity. Qed.
+
+(* ------------------------------------------------------------------ closing an OBU: obu_mem_move + write_uleb_obu_size *)
+(* The writers first lay header and payload end to end in the output buffer, then make room for the size field and write it:
+     obu_mem_move:        length_field_size = svt_aom_uleb_size_in_bytes(payload_size);
+                          memmove(data + length_field_size + header_size, data + header_size, payload_size);
+     write_uleb_obu_size: svt_aom_uleb_encode(payload_size, sizeof(uint32_t) = 4, data + header_size, &coded)
+   The buffer is a list of bytes; both steps are total on lists (the theorem states the room they need). *)
+Definition c_memmove (data : list Z) (dst src n : nat) : list Z :=
+  firstn dst data ++ firstn n (skipn src data) ++ skipn (dst + n) data.
+Definition c_write_at (data : list Z) (off : nat) (bs : list Z) : list Z :=
+  firstn off data ++ bs ++ skipn (off + length bs) data.
+(* result: the buffer and the length-field size the callers advance by; None = AOM_CODEC_ERROR (callers assert) *)
+Definition c_finish_obu (data : list Z) (hdr : nat) (psize : Z) : option (list Z * Z) :=
+  let lf := c_uleb_size 10 psize in
+  let d1 := c_memmove data (Z.to_nat lf + hdr) hdr (Z.to_nat psize) in
+  match c_uleb_encode psize 4 with
+  | None => None
+  | Some bs => Some (c_write_at d1 hdr bs, lf)
+  end.
+
+Lemma firstn_app_exact {A} (l1 l2 : list A) n : n = length l1 -> firstn n (l1 ++ l2) = l1.
+Proof. intros ->. rewrite firstn_app, Nat.sub_diag, firstn_all. cbn [firstn]. apply app_nil_r. Qed.
+Lemma skipn_app_exact {A} (l1 l2 : list A) n : n = length l1 -> skipn n (l1 ++ l2) = l2.
+Proof. intros ->. rewrite skipn_app, Nat.sub_diag, skipn_all. reflexivity. Qed.
+
+(* for every header H, payload P (below 2^28 bytes: the four bytes the caller offers) and tail T with room for the size field:
+   the buffer becomes H ++ size field ++ P ++ (rest of T), the size field is the minimal LEB128 of |P|, the callers advance by
+   its length, and the decoder's reader applied after the header yields |P| and stands at the first payload byte *)
+Theorem c_finish_obu_layout H P T : let psize := Z.of_nat (length P) in let lf := c_uleb_size 10 psize in
+  psize < 2 ^ 28 -> (Z.to_nat lf <= length T)%nat ->
+  exists field, c_finish_obu (H ++ P ++ T) (length H) psize = Some (H ++ field ++ P ++ skipn (Z.to_nat lf) T, lf) /\
+                field = leb_enc 8 psize /\ Z.of_nat (length field) = lf /\ 1 <= lf <= 4 /\
+                c_dec_leb128 (field ++ P ++ skipn (Z.to_nat lf) T) = (psize, lf, P ++ skipn (Z.to_nat lf) T).
+Proof.
+  intros psize lf Hp HT.
+  assert (Hp0 : 0 <= psize) by (unfold psize; lia).
+  assert (H56 : 0 <= psize < 2 ^ 56) by (assert (2 ^ 28 < 2 ^ 56) by (apply Z.pow_lt_mono_r; lia); lia).
+  assert (H64 : 0 <= psize < 2 ^ 64) by (assert (2 ^ 56 < 2 ^ 64) by (apply Z.pow_lt_mono_r; lia); lia).
+  pose proof (c_uleb_size_spec psize H64) as Hs. cbn zeta in Hs. fold lf in Hs. destruct Hs as [Hs1 [Hs2 Hs3]].
+  assert (Hlf4 : lf <= 4).
+  { destruct (Z_le_gt_dec lf 4) as [|Hgt]; [assumption|]. destruct Hs3 as [E|Hge]; [lia|].
+    assert (128 ^ 4 <= 128 ^ (lf - 1)) by (apply Z.pow_le_mono_r; lia). change (128 ^ 4) with (2 ^ 28) in *. lia. }
+  destruct (c_leb128_roundtrip psize 4 (P ++ skipn (Z.to_nat lf) T) H56 ltac:(fold lf; lia)) as [bytes [He [Hl [_ [_ Hd]]]]].
+  pose proof (c_uleb_encode_is_leb_enc psize 4 H56 ltac:(fold lf; lia)) as He'.
+  assert (Hb : bytes = leb_enc 8 psize) by congruence.
+  fold lf in Hl.
+  exists bytes. split; [|split; [exact Hb|split; [exact Hl|split; [lia|rewrite Hd, Hl; reflexivity]]]].
+  unfold c_finish_obu. fold lf. rewrite He. f_equal. f_equal.
+  assert (Hnl : length bytes = Z.to_nat lf) by lia.
+  unfold psize. rewrite Nat2Z.id.
+  (* the move *)
+  unfold c_memmove.
+  rewrite (skipn_app_exact H (P ++ T) (length H) eq_refl).
+  rewrite (firstn_app_exact P T (length P) eq_refl).
+  (* T = T1 ++ T2 with |T1| = lf *)
+  rewrite <- (firstn_skipn (Z.to_nat lf) T) at 1 2.
+  set (T1 := firstn (Z.to_nat lf) T). set (T2 := skipn (Z.to_nat lf) T).
+  assert (HT1 : length T1 = Z.to_nat lf) by (unfold T1; rewrite firstn_length; lia).
+  (* prefix of length lf + |H| of H ++ P ++ T1 ++ T2, and the suffix after lf + |H| + |P| *)
+  assert (Hpre : exists X, length X = Z.to_nat lf /\ firstn (Z.to_nat lf + length H) (H ++ P ++ T1 ++ T2) = H ++ X).
+  { exists (firstn (Z.to_nat lf) (P ++ T1 ++ T2)). split.
+    - rewrite firstn_length, !app_length. lia.
+    - rewrite firstn_app. rewrite firstn_all2 by lia. f_equal. f_equal. lia. }
+  destruct Hpre as [X [HX Hpre]]. rewrite Hpre.
+  assert (Hsuf : skipn (Z.to_nat lf + length H + length P) (H ++ P ++ T1 ++ T2) = T2).
+  { replace (H ++ P ++ T1 ++ T2) with ((H ++ P ++ T1) ++ T2) by (rewrite <- !app_assoc; reflexivity).
+    apply skipn_app_exact. rewrite !app_length. lia. }
+  rewrite Hsuf.
+  (* the write *)
+  unfold c_write_at. rewrite <- app_assoc.
+  rewrite (firstn_app_exact H _ (length H) eq_refl).
+  replace ((H ++ X ++ P ++ T2)) with ((H ++ X) ++ P ++ T2) by (rewrite <- app_assoc; reflexivity).
+  rewrite (skipn_app_exact (H ++ X) (P ++ T2)) by (rewrite app_length; lia).
+  reflexivity.
+Qed.
+
+(* what the four offered bytes mean: a payload of 2^28 bytes or more is refused, nothing is written over the header *)
+Theorem c_finish_obu_refuses_large data hdr psize : 2 ^ 28 <= psize < 2 ^ 64 -> c_finish_obu data hdr psize = None.
+Proof.
+  intros Hp. unfold c_finish_obu.
+  assert (E : c_uleb_encode psize 4 = None).
+  { apply c_uleb_encode_accepts_iff; [lia|].
+    destruct (Z_lt_ge_dec psize (2 ^ 56)) as [Hlt|Hge]; [right|left; lia].
+    pose proof (c_uleb_size_spec psize ltac:(lia)) as Hs. cbn zeta in Hs. destruct Hs as [Hs1 [Hs2 _]].
+    destruct (Z_lt_ge_dec 4 (c_uleb_size 10 psize)) as [|Hle]; [assumption|].
+    assert (128 ^ c_uleb_size 10 psize <= 128 ^ 4) by (apply Z.pow_le_mono_r; lia). change (128 ^ 4) with (2 ^ 28) in *. lia. }
+  rewrite E. reflexivity.
+Qed.
+
+Example c_finish_obu_example :
+  c_finish_obu ([18; 0] ++ [7; 8; 9] ++ [0; 0; 0]) 2 3 = Some ([18; 0; 3; 7; 8; 9; 0; 0], 1).
+Proof. vm_compute. reflexivity. Qed.
